@@ -27,7 +27,8 @@ def bounds(tier):
 
 def jobs(tier):
     b = bounds(tier)
-    out = [{"name": "%s/%s" % (sh, leaf), "shape": sh, "leaf": leaf, "depth": b["depth"], "tier": tier}
+    deep = set(bounds("quick")["leaves"])        # thorough: depth 3 for the quick tier's leaves, depth 2 for the rest of the catalogue
+    out = [{"name": "%s/%s" % (sh, leaf), "shape": sh, "leaf": leaf, "depth": b["depth"] if tier != "thorough" or leaf in deep else 2, "tier": tier}
            for sh in b["shapes"] for leaf in b["leaves"]]
     for sh in ("nested+late", "cfglist+late", "nested+env"):
         for leaf in ["list-int", "dict-typed", "list-int-cd", "dict-any-dflt", "dict-of-lists"]:
